@@ -77,6 +77,17 @@ def substWith (r : Var → Option Est) (p : P) : P :=
   let x := p.coeffs.foldl (substStep r) ([], p.const)
   mk x.1 x.2
 
+/-- `LinearPolynomial.__add__` with another deferred object on the right (a promise): what it is
+currently known to stand for is added -/
+def addEst (σ : Known) (p : P) (i : Var) : P :=
+  match look σ i with
+  | none => add p (ofVar i)
+  | some (.int k) => addConst p k
+  | some (.var w) => add p (ofVar w)
+  | some (.poly q) => add p q
+
+def zero : P := mkDict [] 0
+
 /-- `_substitute_known` -/
 def substKnown (σ : Known) (p : P) : P := substWith (look σ) p
 
